@@ -171,7 +171,7 @@ func C01(tier string) int {
 	if tier == "thorough" {
 		E = eThorough
 		depthClosure, depthTwo = 12, 3
-		budget = 40 * time.Minute
+		budget = 15 * time.Minute
 	}
 	onViol := func(path []SOp, v bfs.Viol) {
 		run.Violate(v.Key, v.What, map[string]any{"check": "C01", "path": path, "path_text": pathStrings(path)})
